@@ -145,6 +145,41 @@ pub struct Scene {
     pub no_finalize: bool,
     /// stop the program at the first call that returns Err (fault runs, C16)
     pub stop_on_err: bool,
+    /// selects how the data sources handed to add_blob / add_* deliver their bytes (whole, in pieces ...)
+    pub src_salt: u8,
+}
+
+/// A data source for blobs, images and masks that delivers its bytes the way pipes, decoders and chained
+/// readers do: in pieces, a legal short read being no end of data. The pattern is a function of the length
+/// and the scene's salt, so that the same program is repeatable and a different salt gives the same content
+/// through a differently behaving reader.
+pub struct PieceReader<'a> {
+    data: &'a [u8],
+    pos: usize,
+    mode: u8,
+    calls: u32,
+}
+impl<'a> PieceReader<'a> {
+    pub fn new(data: &'a [u8], salt: u8) -> Self {
+        PieceReader { data, pos: 0, mode: ((data.len() as u64 + salt as u64 * 3) % 5) as u8, calls: 0 }
+    }
+}
+impl<'a> Read for PieceReader<'a> {
+    fn read(&mut self, buf: &mut [u8]) -> std::io::Result<usize> {
+        self.calls += 1;
+        let left = self.data.len() - self.pos;
+        let want = buf.len().min(left);
+        let n = match self.mode {
+            0 => want,                                              // whole
+            1 => want.min(if self.calls == 1 { 10 } else { usize::MAX }), // a short first piece (sniffed signature)
+            2 => want.min(7),                                       // tiny pieces
+            3 => want.min(if self.calls % 2 == 1 { 1 } else { 4096 }),
+            _ => want.min(3000),
+        };
+        buf[..n].copy_from_slice(&self.data[self.pos..self.pos + n]);
+        self.pos += n;
+        Ok(n)
+    }
 }
 
 // ------------------------------------------------------------------ string / number generators
@@ -929,10 +964,10 @@ fn gen_pc_meta(r: &mut Rng, k: &Knobs, proto: &[Record], cover: &mut crate::Cove
         m.pressure = Some(if wild { gen_f64_wild(r) } else { gen_f64_tame(r) });
     }
     // limits overrides
-    if r.chance(1, 4) {
+    if r.chance(1, p.1.min(4)) {
         m.intensity_limits = Some(gen_intensity_limits(r, proto, cover));
     }
-    if r.chance(1, 4) {
+    if r.chance(1, p.1.min(4)) {
         m.color_limits = Some(gen_color_limits(r, proto, cover));
     }
     m
@@ -949,8 +984,9 @@ fn gen_limit_value(r: &mut Rng, like: Option<&RecordDataType>) -> RecordValue {
     match t {
         0 => RecordValue::Single((r.range(-1000, 1000)) as f32 / 4.0),
         1 => RecordValue::Double((r.range(-100000, 100000)) as f64 / 16.0),
-        2 => RecordValue::ScaledInteger(*r.pick(&[0i64, 1, -5, 255, 65535, i64::MIN, i64::MAX, 1234567])),
-        _ => RecordValue::Integer(*r.pick(&[0i64, 1, -5, 255, 65535, i64::MIN, i64::MAX, 7654321])),
+        // incl. integers that no f64 can hold exactly (beyond 2^53) and the neighbours of the i64 extremes
+        2 => RecordValue::ScaledInteger(*r.pick(&[0i64, 1, -5, 255, 65535, i64::MIN, i64::MAX, 1234567, (1 << 53) + 1, -(1 << 53) - 1, 9007199254740993, i64::MAX - 1, i64::MIN + 1, 0x7FFF_FFFF_FFFF_FC01, 1_000_000_000_000_000_001])),
+        _ => RecordValue::Integer(*r.pick(&[0i64, 1, -5, 255, 65535, i64::MIN, i64::MAX, 7654321, (1 << 53) + 1, -(1 << 53) - 1, -9007199254740993, i64::MAX - 1, i64::MIN + 1, 0x7FFF_FFFF_FFFF_FC01, -1_000_000_000_000_000_001])),
     }
 }
 
@@ -1225,6 +1261,7 @@ pub fn gen_scene(r: &mut Rng, k: &Knobs, cover: &mut crate::Cover) -> Scene {
         },
         no_finalize: false,
         stop_on_err: false,
+        src_salt: 0,
     }
 }
 
@@ -1363,9 +1400,9 @@ fn img_format(png: bool) -> ImageFormat {
     }
 }
 
-fn add_proj<T: Read + Write + Seek>(w: &mut ImageWriter<T>, kind: &ProjKind, rep: &RepSpec) -> Result<()> {
-    let mut data: &[u8] = &rep.data;
-    let mut mask_slice: &[u8] = rep.mask.as_deref().unwrap_or(&[]);
+fn add_proj<T: Read + Write + Seek>(w: &mut ImageWriter<T>, kind: &ProjKind, rep: &RepSpec, salt: u8) -> Result<()> {
+    let mut data = PieceReader::new(&rep.data, salt);
+    let mut mask_slice = PieceReader::new(rep.mask.as_deref().unwrap_or(&[]), salt.wrapping_add(1));
     let mask: Option<&mut dyn Read> = if rep.mask.is_some() { Some(&mut mask_slice) } else { None };
     match kind {
         ProjKind::Pinhole => w.add_pinhole(
@@ -1482,7 +1519,7 @@ pub fn run_scene(scene: &Scene, dev: Dev, judge: Judge) -> RunResult {
                 }
             }
             Item::Blob(data) => {
-                let mut rd: &[u8] = data;
+                let mut rd = PieceReader::new(data, scene.src_salt);
                 let r = call!("add_blob", w.add_blob(&mut rd));
                 match r {
                     Ok(Ok(b)) => {
@@ -1532,8 +1569,8 @@ pub fn run_scene(scene: &Scene, dev: Dev, judge: Judge) -> RunResult {
                 }
                 let mut ok = true;
                 if let Some(rep) = &spec.visual {
-                    let mut data: &[u8] = &rep.data;
-                    let mut mask_slice: &[u8] = rep.mask.as_deref().unwrap_or(&[]);
+                    let mut data = PieceReader::new(&rep.data, scene.src_salt);
+                    let mut mask_slice = PieceReader::new(rep.mask.as_deref().unwrap_or(&[]), scene.src_salt.wrapping_add(1));
                     let mask: Option<&mut dyn Read> = if rep.mask.is_some() { Some(&mut mask_slice) } else { None };
                     let r = call!(
                         "add_visual_reference",
@@ -1549,7 +1586,7 @@ pub fn run_scene(scene: &Scene, dev: Dev, judge: Judge) -> RunResult {
                     }
                 }
                 if let Some((kind, rep)) = &spec.proj {
-                    let r = call!("add_projection", add_proj(&mut iw, kind, rep));
+                    let r = call!("add_projection", add_proj(&mut iw, kind, rep, scene.src_salt));
                     match r {
                         Ok(Ok(())) => {}
                         Ok(Err(err)) => {
@@ -1561,7 +1598,7 @@ pub fn run_scene(scene: &Scene, dev: Dev, judge: Judge) -> RunResult {
                 }
                 if let Some((kind, rep)) = &spec.second_proj {
                     let before = dev.len();
-                    let r = call!("add_projection(second)", add_proj(&mut iw, kind, rep));
+                    let r = call!("add_projection(second)", add_proj(&mut iw, kind, rep, scene.src_salt));
                     match r {
                         Ok(Ok(())) => res.violations.push(viol("C10", "accept/second-projection".into(), "second projection accepted".into())),
                         Ok(Err(_)) => {
